@@ -19,7 +19,7 @@ def canon(w, keep_stats=False):
     ms = tuple(wk.w(m.state(w)) for m in getattr(w, "mons", []))
     body = wk.w(w.obj)
     envq = wk.w(w.env)
-    return (ledger_t, tuple(ledger_i), ms, body, envq)
+    return (ledger_t, tuple(ledger_i), ms, body, envq, min(w.puts_now, w.spec.get("puts_per_instant") or 0))
 
 
 def enabled(w, b):
@@ -49,7 +49,7 @@ def enabled(w, b):
         if not t.live:
             continue
         if t.side == "p":
-            if t.status == GRANTED:
+            if t.status == GRANTED and not (sp.get("puts_per_instant") and w.puts_now >= sp.get("puts_per_instant")):
                 for d in sp.get("delays", [0]):
                     for c in sp.get("colors", ["red"]):
                         ops.append(("put", t.idx, d, c))
